@@ -364,7 +364,29 @@ def run_check(prop, tier, cfg):
         data = json.load(open(json_out))
         results = data.get("verification_results", {}).get("results", [])
         n_expected = len(data.get("harness_metadata", []))
-        violations, findings, inconcl, tot, per_h = classify(prop, results, known, cfg.get("expected_panics", ()), cfg.get("own_labels_only", False))
+        # ---- second chance for harnesses that did not finish (per-harness timeout on a loaded machine, RSS
+        # watchdog): run them again, fewer at a time, with three times the time budget.  Only what is still
+        # unfinished after that is reported as inconclusive.
+        def _unfinished(rs):
+            return [r["harness_id"] for r in rs if not r.get("checks") or r.get("status") not in ("Success", "Failure")]
+        retry = _unfinished(results)
+        retried = []
+        if retry and len(retry) <= 24 and not os.environ.get("VERIF_NO_RETRY"):
+            log(f"{prop} {tier}: {len(retry)} harness(es) did not finish, retrying: " + ", ".join(x.rsplit("::", 1)[-1] for x in retry))
+            json2 = os.path.join(ov, "kani_results_retry.json")
+            ht = cfg.get("harness_timeout_thorough" if tier == "thorough" else "harness_timeout", 600)
+            rc2, _w2 = run_kani(ov, [x.rsplit("::", 1)[-1] for x in retry], min(4, len(retry)), 3 * ht,
+                                3 * ht * (1 + len(retry) // 4), extra, json2, log_path + ".retry",
+                                (cfg.get("mem_gb") or 20) * 1.5)
+            if os.path.exists(json2):
+                d2 = json.load(open(json2))
+                r2 = {r["harness_id"]: r for r in d2.get("verification_results", {}).get("results", []) if r["harness_id"] in retry}
+                results = [r2.get(r["harness_id"], r) for r in results]
+                data.setdefault("cbmc", [])
+                data["cbmc"] = [c for c in data["cbmc"] if c.get("harness_id") not in r2] + [c for c in d2.get("cbmc", []) if c.get("harness_id") in r2]
+                retried = sorted(r2)
+        violations, findings, inconcl, tot, per_h = classify(prop, results, known, cfg.get("expected_panics", ()),
+                                                             cfg.get("own_labels_only", False) and not os.environ.get("VERIF_ALL_LABELS"))
         if len(results) != n_expected:
             inconcl.append(f"{n_expected} harnesses selected but {len(results)} reported")
         if n_expected == 0:
@@ -438,7 +460,7 @@ def run_check(prop, tier, cfg):
                 overlay=dict(o1=info.get("o1_modules"), o2_sites=info.get("o2_sites"), o3=info.get("o3_impls")),
                 stubs=cfg.get("stubs", []),
                 known_findings=[dict(label=f["label"], harness=f["harness"]) for f in findings],
-                inconclusive=inconcl,
+                inconclusive=inconcl, retried_after_timeout=retried,
                 trusted_base=cfg.get("trusted_base", ["rustc->Kani->goto-program translation", "CBMC 6.11 + CaDiCaL",
                                                         "overlay edits O1-O4 (DESIGN.md 2.1)"]),
             ),
